@@ -67,6 +67,18 @@ def unset (m : M V) (id : Nat) : M V × Option V :=
     ({ m with chunks := setSlot m.chunks m.chunkSize id none,
               len := if prev.isSome then m.len - 1 else m.len }, prev)
 
+/-- `Mapping::get_mut` followed by a write through the returned reference: the previous value, and the mapping
+    with the slot overwritten when it was occupied (unchanged otherwise, also for ids beyond the allocated chunks). -/
+def getMut (m : M V) (id : Nat) (v : V) : M V × Option V :=
+  if id / m.chunkSize ≥ m.chunks.length then (m, none)
+  else
+    match slot m id with
+    | some old => ({ m with chunks := setSlot m.chunks m.chunkSize id (some v) }, some old)
+    | none => (m, none)
+
+/-- `Mapping::slots` / `Mapping::capacity` -/
+def slots (m : M V) : Nat := m.chunks.length * m.chunkSize
+
 /-- `MappingIter`: repeated `next()` from `offset` until it returns `None`
     (the iterator is fused). The stopping rule is the one in the source
     (`offset > max`); `fuel` only makes the recursion structural and is
